@@ -1,4 +1,57 @@
-From Emitter Require Import Lib.Base Model.Mqtt Spec.Mqtt311.
-Theorem C16_placeholder : encode Pingreq = Ok (encode311 Pingreq).
-Proof. reflexivity. Qed.
-Print Assumptions C16_placeholder.
+(* C16 - The MQTT codec agrees with MQTT 3.1.1 for every packet it handles.
+   Only statements, each closed by a lemma of Proofs/, with Print Assumptions beneath.
+   Model: Model/Mqtt.v (tied to internal/network/mqtt/mqtt.go by the c16 harness on every run);
+   standard: Spec/Mqtt311.v (compared byte for byte with paho on every run). *)
+From Emitter Require Import Lib.Base Model.Mqtt Spec.Mqtt311 Proofs.ListFacts Proofs.MqttWords Proofs.MqttCodec.
+
+(* Every well-formed packet value whose body fits the 64 KiB buffer (65530 bytes after the header
+   room) is encoded to exactly the bytes the standard prescribes - all 14 types, every flag
+   combination, every QoS incl. will QoS, empty strings and payloads, all lengths. *)
+Theorem C16_encode_matches_spec : forall p,
+  wf311 p = true -> len (body311 p) <= bodyRoom -> encode p = Ok (encode311 p).
+Proof. exact encode_matches_spec. Qed.
+Print Assumptions C16_encode_matches_spec.
+
+(* Every standard encoding of a well-formed value within the configured size limit is decoded to
+   the same field values, and the bytes that follow it in the stream are left unread. *)
+Theorem C16_decode_matches_spec : forall p rest max,
+  wf311 p = true -> len (body311 p) < 268435456 -> len (body311 p) <= max ->
+  decode_packet (encode311 p ++ rest) max = Ok (p, rest).
+Proof. exact decode_spec. Qed.
+Print Assumptions C16_decode_matches_spec.
+
+(* Encoding then decoding returns the value. *)
+Theorem C16_roundtrip : forall p bs rest max,
+  wf311 p = true -> len (body311 p) <= bodyRoom -> len (body311 p) <= max ->
+  encode p = Ok bs -> decode_packet (bs ++ rest) max = Ok (p, rest).
+Proof.
+  intros p bs rest max W F M E. rewrite encode_matches_spec in E by assumption.
+  injection E as <-. apply decode_spec; try assumption.
+  unfold bodyRoom, MaxMessageSize, maxHeaderSize in F. apply N.le_lt_trans with (1 := F). reflexivity.
+Qed.
+Print Assumptions C16_roundtrip.
+
+(* The remaining-length field: 1/2/3/4 bytes with the boundaries at 128, 16384, 2097152, and the
+   decoder's loop inverts it for every value below 2^28. *)
+Theorem C16_remaining_length_boundaries : forall n rest,
+  n < 268435456 ->
+  len (remaining_length n) = (if n <? 128 then 1 else if n <? 16384 then 2 else if n <? 2097152 then 3 else 4)
+  /\ dec_len (remaining_length n ++ rest) 1 0 = Some (n, rest).
+Proof. intros n rest H. split; [apply remaining_length_size | apply dec_len_remaining_length]; exact H. Qed.
+Print Assumptions C16_remaining_length_boundaries.
+
+(* The header written by the broker carries the standard's digits for every body it can hold. *)
+Theorem C16_header_length_digits : forall n, n <= bodyRoom -> hdr_len_bytes n = remaining_length n.
+Proof. exact hdr_len_bytes_spec. Qed.
+Print Assumptions C16_header_length_digits.
+
+(* non-vacuity: concrete packets meeting the hypotheses, incl. a will QoS 2 CONNECT, an empty
+   payload, and a body of 16384 bytes (3-byte length field) *)
+Example C16_nonvacuous :
+  wf311 (Connect [77;81;84;84] 4 true false true 2 true true 60 [99] [97] [] [117] []) = true
+  /\ wf311 (Publish (Hdr true 2 true) [97;47] 7 []) = true
+  /\ wf311 (Publish (Hdr false 0 false) [97] 0 (rep 16381 0)) = true
+  /\ len (body311 (Publish (Hdr false 0 false) [97] 0 (rep 16381 0))) = 16384
+  /\ decode_packet (encode311 (Subscribe (Hdr false 1 false) 9 [([97;47], 1); ([], 0)]) ++ [1;2]) 65536
+     = Ok (Subscribe (Hdr false 1 false) 9 [([97;47], 1); ([], 0)], [1;2]).
+Proof. vm_compute. repeat split; reflexivity. Qed.
